@@ -176,7 +176,7 @@ def native(copy, tests, timeout=3000):
         env.update(dict(envt))
         crate, pkg, base = place(f)
         cmd = ['cargo', 'test', '--offline', '-p', pkg, '--test', 'verif_' + base] + (['--release'] if envt else []) + ['--']
-        cmd += [t[1] for t in ts] + ['--exact', '--nocapture', '--test-threads', '8']
+        cmd += [t[1].split('@')[0] for t in ts] + ['--exact', '--nocapture', '--test-threads', '8']
         try:
             p = subprocess.run(cmd, cwd=copy, env=env, capture_output=True, text=True, timeout=timeout)
             out = p.stdout + '\n' + p.stderr
@@ -188,7 +188,9 @@ def native(copy, tests, timeout=3000):
             det = (m.group(5) or '').strip()
             if m.group(5) is None and ' detail=' in key:
                 key, det = key.split(' detail=', 1)
-            out_all[m.group(1)] = {'status': m.group(2), 'cases': int(m.group(3)), 'key': key, 'detail': det, 'cmd': shown}
+            for t in ts:
+                if t[1].split('@')[0] == m.group(1):
+                    out_all[t[1]] = {'status': m.group(2), 'cases': int(m.group(3)), 'key': key, 'detail': det, 'cmd': shown}
         for t in ts:
             if t[1] not in out_all:
                 out_all[t[1]] = {'status': 'undecided', 'cases': 0, 'key': '-', 'detail': 'no NB-RESULT line; tail: ' + out[-1500:], 'cmd': shown}
